@@ -220,6 +220,12 @@ impl Client {
                 Ok(Some(RequestResult::ProcessTypes(types))) => {
                     let ClientOp::Line { session, src } = self.ops[self.pc].clone() else { unreachable!() };
                     let types: HashMap<usize, (Type, usize)> = types;
+                    // `nowait>`: a client that does not wait for this line's result before entering the
+                    // next one (quiver-web evaluates every queued line on its next tick)
+                    let (src, nowait) = match src.strip_prefix("nowait>") {
+                        Some(rest) => (rest.to_string(), true),
+                        None => (src, false),
+                    };
                     // `@?` stands for the newest process (REPL process references are by number)
                     let src = if src.contains("@?") { src.replace("@?", &format!("@{}", types.keys().max().copied().unwrap_or(0))) } else { src };
                     let repl = self.sessions[session].as_mut().unwrap();
@@ -232,6 +238,7 @@ impl Client {
                             let msg = crate::world::panic_msg(&p);
                             self.finish(Out::EnvError(format!("PANIC in Repl::evaluate: {msg}")), steps);
                         }
+                        Ok(Ok(Some(_))) if nowait => self.finish(Out::Started, steps),
                         Ok(Ok(Some(req))) => self.state = State::WaitResult { req },
                         Ok(Ok(None)) => self.finish(Out::NoCode, steps),
                         Ok(Err(ReplError::Parser(_))) => self.finish(Out::ParseError, steps),
